@@ -139,12 +139,14 @@ static int handle_core(char **f, int nf) {
 
 #include "u_formats.h"
 #include "u_filter.h"
+#include "u_block.h"
 
 static void handle(char *line) {
   static char *f[MAXF]; int nf = split_fields(line, f, MAXF);
   if (handle_core(f, nf)) return;
   if (handle_formats(f, nf)) return;
   if (handle_filter(f, nf)) return;
+  if (handle_block(f, nf)) return;
   printf("bad-op");
 }
 
